@@ -146,7 +146,27 @@ func VerifH_C16_slice_write() {
 	vm.Set("x", x)
 	idx := verifChoose(6) // 3 is one past the end (append), 4 and 5 leave a gap
 	vm.Set("i", idx)
-	switch verifChoose(3) {
+	switch verifChoose(4) {
+	case 3: // assigning the length: any double below 6 (growth is bounded to keep allocations small)
+		sl := []float64{1, 2, 3}
+		vm.Set("sl", sl)
+		verifAssume(!(x >= 6))
+		var v Value
+		var err error
+		kind, _ := verifCatch(func() {
+			v, err = vm.Run("var r = 'ok'; try { sl.length = x } catch (e) { r = e instanceof RangeError ? 'RangeError' : 'other' } [r, sl.length].join()")
+		})
+		verifCover("reached")
+		verifAssert(kind == verifNormal && err == nil, "a refused length is an exception of the script, not a Go panic")
+		if kind == verifNormal && err == nil {
+			want := refToInteger(x)
+			if want < 0 {
+				verifAssert(v.String() == "RangeError,3", "a negative length is refused with a RangeError and changes nothing")
+			} else {
+				verifAssert(v.String() == "ok,"+verifItoa(int64(want)), "the length becomes ToInteger of the assigned value")
+			}
+		}
+		return
 	case 0:
 		sl := []int8{1, 2, 3}
 		vm.Set("sl", sl)
